@@ -592,3 +592,15 @@ package keeper
 //@ loop #1
 //@   invariant true
 //@   step[C03.ndp.nonce] defined(res_NewDelegationOrUndelegationParams_0)
+
+// C09 (a native-restaking balance update that reports failure has changed nothing) / C01: by the time the delegations are
+// visited the withdrawable balance and the pending undelegations have already been reduced, so the visitor must not
+// fail on a record that merely has nothing to give: RemoveShare - which refuses a share that is not positive - is only
+// handed a positive share. (Delegation records are kept after they have been emptied.)
+//@ func (Keeper).UpdateNSTBalance$2
+//@   requires keys != nil && delegationAmount != nil && !isnil(delegationAmount.UndelegatableShare) && val(delegationAmount.UndelegatableShare) >= 0
+//@   requires !isnil(slashProportion) && val(slashProportion) > 0
+//@   flag noframe
+//@   flag pure=AccAddressFromBech32,Logger,Info
+//@   flag havoc=RemoveShare,UpdateStakerAssetState
+//@   before[C09.nst.positive,C01.nst.positive] RemoveShare requires val(arg_share) > 0
